@@ -65,6 +65,47 @@ package casblob
 //@   requires f != nil && zstd != nil
 //@   ensures (result1 == nil) <==> (result0 != nil)
 
+// The published header layout (C20): seven little-endian fields in this order and with these
+// widths: magic uint32, frame size uint32, uncompressed size int64, compression uint8,
+// chunk size uint32, number of offsets int64, the offsets []int64.
+//@ pred isLE(o) = tagof(o) == typetag("binary.littleEndian")
+//@ func (h *header) write(f *os.File) error
+//@   serves C08 C20
+//@   requires h != nil && f != nil && len(h.chunkOffsets) < 268435456
+//@   modifies bwN
+//@   ensures[C20] seven: result == nil ==> bwN == old(bwN) + 7
+//@   call Write#0 asserts[C20] magic: arg0 == iface(f) && isLE(arg1) && tagof(arg2) == typetag("uint32") && payload(arg2) == 407710288
+//@   call Write#1 asserts[C20] framesize: arg0 == iface(f) && isLE(arg1) && tagof(arg2) == typetag("uint32") && payload(arg2) == 21 + 8 * len(h.chunkOffsets)
+//@   call Write#2 asserts[C20] usize: arg0 == iface(f) && isLE(arg1) && tagof(arg2) == typetag("int64") && payload(arg2) == h.uncompressedSize
+//@   call Write#3 asserts[C20] ctype: arg0 == iface(f) && isLE(arg1) && tagof(arg2) == typetag("CompressionType") && payload(arg2) == h.compression
+//@   call Write#4 asserts[C20] csize: arg0 == iface(f) && isLE(arg1) && tagof(arg2) == typetag("uint32") && payload(arg2) == h.chunkSize
+//@   call Write#5 asserts[C20] noffsets: arg0 == iface(f) && isLE(arg1) && tagof(arg2) == typetag("int64") && payload(arg2) == len(h.chunkOffsets)
+//@   call Write#6 asserts[C20] offsets: arg0 == iface(f) && isLE(arg1) && tagof(arg2) == typetag("[]int64") && arr(as(arg2, "[]int64")) == arr(h.chunkOffsets) && offset(as(arg2, "[]int64")) == offset(h.chunkOffsets) && len(as(arg2, "[]int64")) == len(h.chunkOffsets)
+
+// WriteAndClose (C01, C08, C20). With t == Zstandard (the only mode the cache passes):
+// success means that exactly `size` bytes were consumed from r, that r was at EOF after
+// them, that the bytes consumed are exactly the bytes that were hashed, that their SHA-256
+// is `hash`, and that the chunk table was finalised only after all of this was established
+// and was followed by an fsync. The compressed bytes themselves are not modelled.
 //@ func WriteAndClose(zstd zstdimpl.ZstdImpl, r io.Reader, f *os.File, t CompressionType, hash string, size int64) (int64, error)
-//@   trusted
-//@   ensures result1 == nil ==> (0 <= result0 && result0 <= B62())
+//@   serves C01 C08 C14 C20
+//@   requires zstd != nil && r != nil && f != nil && size <= 140737488355328
+//@   modifies ioState()
+//@   ensures[C01] positive: result1 == nil ==> (size > 0 && 0 <= result0 && result0 <= B62())
+//@   ensures[C01] length: (result1 == nil && t == 1) ==> (rdN == old(rdN) + size && rdEOF)
+//@   ensures[C01] digest: (result1 == nil && t == 1) ==> (rdStream == scat(old(rdStream), hStream) && hash == hexsum(hStream))
+//@   ensures[C08] durable: (result1 == nil && t == 1) ==> (fsyncN == old(fsyncN) + 1 && bwN == old(bwN) + 8)
+//@   ensures[C20] minsize: (result1 == nil && t == 1) ==> result0 >= 29 + 8 * (nChunks(size, 1048576) + 1)
+//@   call Get#0 assumes pool: istype(result, "*[]byte") && payload(result) != 0 && len(deref(as(result, "*[]byte"))) == 1048576 && arr(deref(as(result, "*[]byte"))) != 0 && !old(allocated(payload(result))) && !old(allocated(arr(deref(as(result, "*[]byte")))))
+//@   call EncodeAll#0 assumes bound: len(result) <= 2 * len(arg1) + 1024
+//@   call write#0 asserts[C20] header: h.uncompressedSize == size && h.compression == t && h.chunkSize == 1048576 && len(h.chunkOffsets) == (t == 1 ? nChunks(size, 1048576) : 1) + 1
+//@   loop 0 invariant idx: 0 <= nextChunk && nextChunk <= len(h.chunkOffsets) - 1 && len(h.chunkOffsets) == numOffsets && len(uncompressedChunk) == 1048576 && arr(uncompressedChunk) != 0
+//@   loop 0 invariant[C01] remaining: 0 <= remainingRawData && remainingRawData <= size && (t == 1 ==> remainingRawData == (size > nextChunk * 1048576 ? size - nextChunk * 1048576 : 0))
+//@   loop 0 invariant[C01] consumed: rdN == old(rdN) + size - remainingRawData && rdStream == scat(old(rdStream), hStream)
+//@   loop 0 invariant[C08] notyet: bwN == old(bwN) + 7 && fsyncN == old(fsyncN)
+//@   loop 0 invariant[C20] offs: 29 + 8 * numOffsets <= fileOffset && fileOffset <= 29 + 8 * numOffsets + nextChunk * 2098176
+//@   loop 0 modifies ioState(), elems(uncompressedChunk), elems(h.chunkOffsets)
+//@   call Seek#0 asserts[C01,C08] verified: t == 1 ==> (rdN == old(rdN) + size && rdEOF && rdStream == scat(old(rdStream), hStream) && hash == hexsum(hStream) && nextChunk == len(h.chunkOffsets) - 1)
+//@   call Seek#0 asserts[C20] tablepos: arg1 == 29 && arg2 == 0
+//@   call Write#2 asserts[C08,C20] table: bwN == old(bwN) + 7 && arg0 == iface(f) && isLE(arg1) && tagof(arg2) == typetag("[]int64") && arr(as(arg2, "[]int64")) == arr(h.chunkOffsets) && len(as(arg2, "[]int64")) == len(h.chunkOffsets)
+//@   call Sync#0 asserts[C08] aftertable: bwN == old(bwN) + 8
